@@ -327,6 +327,7 @@ fn letters(n: usize) -> Vec<String> {
 		v.push(format!("set_volume(track {}, -12 dB over 1 s = 8 frames)", i));
 		v.push(format!("resume track {} (fade-in over 1 s)", i));
 		v.push(format!("resume_at(track {}, Delayed 0.75 s = 6 frames, instant)", i));
+		v.push(format!("pause track {} (1 s fade) and resume it (1 s fade) in the same interval", i));
 	}
 	v.push("set_volume(send 0, -60 dB, instant)".to_string());
 	v.push("set_volume(send 0, 0 dB, instant)".to_string());
@@ -382,8 +383,8 @@ fn histories(tier: Tier, shape: usize, ibs: usize, ctx: &mut Ctx) {
 					l if l == ls.len() - 2 => w.set_send_volume(0, 0.0, 0.0),
 					l if l == ls.len() - 3 => w.set_send_volume(0, -60.0, 0.0),
 					_ => {
-						let i = (l - 3) / 8;
-						match (l - 3) % 8 {
+						let i = (l - 3) / 9;
+						match (l - 3) % 9 {
 							0 => {
 								let (a, b) = sound_code(5 + extra % 3);
 								extra += 1;
@@ -399,7 +400,11 @@ fn histories(tier: Tier, shape: usize, ibs: usize, ctx: &mut Ctx) {
 							4 => w.resume_node(i, 0.0),
 							5 => w.set_node_volume(i, -12.0, 1.0),
 							6 => w.resume_node(i, 1.0),
-							_ => w.resume_node_at(i, kira::StartTime::Delayed(std::time::Duration::from_secs_f64(0.75)), crate::models::playback::StartM::Delayed(0.75), 0.0),
+							7 => w.resume_node_at(i, kira::StartTime::Delayed(std::time::Duration::from_secs_f64(0.75)), crate::models::playback::StartM::Delayed(0.75), 0.0),
+							_ => {
+								w.pause_node(i, 1.0);
+								w.resume_node(i, 1.0);
+							}
 						}
 					}
 				}
